@@ -448,19 +448,22 @@ func repoGarbageCollect(repo Repo, conf config.Config, index types.Index, locked
 		}
 	}
 	seen := map[digest.Digest]bool{}
+	// walked tracks manifests that have been parsed, a digest may also have been seen as a config or layer of another manifest
+	walked := map[digest.Digest]bool{}
 	// walk all manifests to note seen digests
 	for len(manifests) > 0 {
 		// work from tail to make deletes easier
 		d := manifests[len(manifests)-1]
 		manifests = manifests[:len(manifests)-1]
 		inIndex[d.Digest] = true
-		if seen[d.Digest] {
+		if walked[d.Digest] {
 			continue
 		}
 		br, err := repo.blobGet(d.Digest, locked)
 		if err != nil {
 			continue
 		}
+		walked[d.Digest] = true
 		seen[d.Digest] = true
 		// parse manifests for descriptors (manifests, config, layers)
 		if types.MediaTypeIndex(d.MediaType) {
